@@ -672,6 +672,8 @@ func checkBlockRequest(c *vcommon.Case, q BlockRequest) {
 		c.Count("pb_byte_identical", 1)
 	} else {
 		c.Count("pb_field_order_differs", 1)
+		c.Count("pb_field_order_differs_request", 1)
+		c.Sample(map[string]any{"type": "BlockRequest", "note": "same fields, other order", "encode": Hx(enc), "reference": Hx(ref)})
 	}
 	for _, in := range [][]byte{ref, enc} {
 		back := new(messages.BlockRequestMessage)
